@@ -44,7 +44,8 @@ Definition num_kws (k : numkind) (s : sign) (c : numc) : list kw :=
   ++ optl (multiplesOf c) (fun m => KMultiplesOf (NInt m))
   ++ optl (get_min k s c) KMinimum
   ++ optl (get_max k s c) KMaximum
-  ++ (if exclusiveMaximum c then [KExclMax true] else []).
+  (* exclusiveMaximum is emitted next to the field's OWN maximum only (the field applies it to that one only) *)
+  ++ (if exclusiveMaximum c && match maximum c with Some _ => true | None => false end then [KExclMax true] else []).
 
 Definition str_kws (c : strc) : list kw :=
   [KType TString] ++ optl (minLength c) KMinLength ++ optl (maxLength c) KMaxLength
@@ -59,6 +60,21 @@ Definition uniq_kws (u : bool) : list kw := if u then [KUnique true] else [].
 Definition nonzero (o : option Z) : bool := match o with Some z => negb (z =? 0) | None => false end.
 Definition key_constrained (c : strc) : bool :=
   match pattern c with Some _ => true | None => false end || nonzero (maxLength c) || nonzero (minLength c).
+
+(* MapMapper emits "patternProperties": {<key regex>: <value schema>} where the key regex is the text
+   f"{keys.pattern or ''}{suffix}", suffix = f"{{{keys.minLength or ''}, {keys.maxLength or ''}}}" when a length bound
+   is set.  The regex oracle knows regexes by id: a key pattern alone is that pattern; a text with a length suffix has
+   the id [key_pid c] (an injective code of the three constraints above KEY_BASE; the harness fills the oracle's tables
+   for it with the text Python builds, Schema/SchemaSrcProofs.v states the text) *)
+Definition pairN (a b : N) : N := ((a + b) * (a + b + 1) / 2 + b)%N.
+Definition encZ (o : option Z) : N :=
+  match o with None => 0%N | Some z => (1 + 2 * Z.abs_N z + (if (z <? 0)%Z then 1 else 0))%N end.
+Definition encN (o : option N) : N := match o with None => 0%N | Some p => (p + 1)%N end.
+Definition KEY_BASE : N := 1000000000%N.
+Definition key_pid (c : strc) : N :=
+  if nonzero (maxLength c) || nonzero (minLength c)
+  then (KEY_BASE + pairN (encN (pattern c)) (pairN (encZ (minLength c)) (encZ (maxLength c))))%N
+  else match pattern c with Some p => p | None => 0%N end.
 
 (* ------------------------------------------------------------------ enum classes *)
 (* What the schema export needs to know about an enum CLASS: the primitive type it mixes in (enum.IntEnum,
@@ -153,8 +169,10 @@ Fixpoint fschema (f : field) : schema :=
   | FMapAny sz => Sch ([KType TObject] ++ size_kws sz)
   | FMapKV kf vf sz =>
       Sch ([KType TObject]
-           ++ (if match kf with FString c => key_constrained c | _ => false end
-               then [KBadPatProps (fschema vf)] else [KAddPropsS (fschema vf)])
+           ++ match kf with
+              | FString c => if key_constrained c then [KPatProps [(key_pid c, fschema vf)]] else [KAddPropsS (fschema vf)]
+              | _ => [KAddPropsS (fschema vf)]
+              end
            ++ size_kws sz)
   | FAllOf fs => Sch [KAllOf (map fschema fs)]
   | FAnyOf fs =>
@@ -214,7 +232,6 @@ Fixpoint fclean (f : field) : bool :=
   | FNumber k s c =>
       match multiplesOf c with Some m => 0 <? m | None => true end
       && bound_json (minimum c) && bound_json (maximum c)
-      && (negb (exclusiveMaximum c) || match get_max k s c with Some _ => true | None => false end)
   | FString c => nonneg (minLength c) && nonneg (maxLength c)
   | FBoolean => true
   | FNone | FAnything => false
@@ -228,7 +245,7 @@ Fixpoint fclean (f : field) : bool :=
   | FMapAny sz => size_sane sz
   | FMapKV kf vf sz =>
       size_sane sz &&
-      match kf with FString c => negb (key_constrained c) && fclean vf | _ => false end
+      match kf with FString _ => fclean vf | _ => false end
   | FAllOf fs | FOneOf fs | FNot fs => negb (Nat.eqb (length fs) 0) && forallb fclean fs
   | FAnyOf fs =>
       match fs with
@@ -428,7 +445,7 @@ Section Ser.
             match (fix pos (fs : list field) (vs : list pyval) {struct fs} : option (list pyval) :=
                      match fs, vs with
                      | _, [] => Some []
-                     | [], _ :: _ => None              (* items[ind]: IndexError *)
+                     | [], _ :: _ => mapO ser_untyped vs      (* past the declared positions: no field definition *)
                      | g :: fs', x :: vs' =>
                          match ser g x, pos fs' vs' with Some y, Some ys => Some (y :: ys) | _, _ => None end
                      end) items l with
@@ -446,10 +463,26 @@ Section Ser.
             end
         | _ => None
         end
-    | FTuple _ _ =>
-        (* serialize_val has no branch for Tuple: the elements are serialized WITHOUT their item fields *)
+    | FTuple [g] _ =>
+        (* a single item field is the field of every element *)
         match v with
-        | PTuple l => match mapO ser_untyped l with Some r => Some (PList r) | None => None end
+        | PTuple l => match mapO (ser g) l with Some r => Some (PList r) | None => None end
+        | _ => None
+        end
+    | FTuple items _ =>
+        (* positional, like Array(items=[...]) *)
+        match v with
+        | PTuple l =>
+            match (fix pos (fs : list field) (vs : list pyval) {struct fs} : option (list pyval) :=
+                     match fs, vs with
+                     | _, [] => Some []
+                     | [], _ :: _ => mapO ser_untyped vs
+                     | g :: fs', x :: vs' =>
+                         match ser g x, pos fs' vs' with Some y, Some ys => Some (y :: ys) | _, _ => None end
+                     end) items l with
+            | Some r => Some (PList r)
+            | None => None
+            end
         | _ => None
         end
     | FMapAny _ =>
